@@ -6,7 +6,8 @@ stated size is decided by the solver: no path ends in a panic (index out of rang
 None, arithmetic overflow in debug builds, explicit assert).
   V  identifier validators with `as u8` truncations / direct indexing (mxc_uri, key_id): every UTF-8 string <= 300 bytes
      (the C10 harness: also decides the returned index).
-  U  MatrixId::parse_with_sigil / parse_with_type, MatrixToUri::parse: every UTF-8 string up to the bound (C11 harness).
+  U  MatrixId::parse_with_sigil (the parser behind matrix.to and matrix: URIs): every UTF-8 string up to the bound (C11 harness;
+     parse_with_type / MatrixToUri::parse build their input for it with format! and did not finish within 25 min: not claimed).
   H  Content-Disposition header value: TryFrom<&[u8]> on every byte string up to the bound (decode_value's lossy UTF-8 /
      percent decoding are library calls and abstracted).
   W  push word matching (`char_at` / `find_prev_char` with slicing at computed offsets) on every UTF-8 value / literal
@@ -123,15 +124,14 @@ def body(C):
     C.build_replayer(['common'])
     quick = C.tier == 'quick'
     jobs = [(c10.run_target, 'mxc_uri'), (c10.run_target, 'key_id_any'),
-            (c11.run_nopanic, ('MatrixId::parse_with_sigil', 'c11:parse_sigil')), (c11.run_nopanic, ('MatrixId::parse_with_type', 'c11:parse_type')),
-            (c11.run_nopanic, ('MatrixToUri::parse', 'c11:parse_matrixto')),
+            (c11.run_nopanic, ('MatrixId::parse_with_sigil', 'c11:parse_sigil')),
             (run_content_disposition, 4 if quick else 6),
             (run_word_utf8, (5, 2) if quick else (6, 3))]
     parts = os.environ.get('VERIF_PARTS')
     if parts:
         jobs = [j for j in jobs if any(p in j[0].__name__ or p in repr(j[1]) for p in parts.split(','))]
     C.assumptions += [
-        'decided entry points: identifier validators mxc_uri / key_id (<= 300 bytes), MatrixId::parse_with_sigil / parse_with_type and MatrixToUri::parse (bound in coverage.bounds; matrix.to texts without `?`), ContentDisposition::try_from(&[u8]), push word matching on UTF-8 text, the ring-compat rewrite in Ed25519KeyPair::from_der (Kani, <= 8 bytes); ruleset edits are decided by C13',
+        'decided entry points: identifier validators mxc_uri / key_id (<= 300 bytes), MatrixId::parse_with_sigil (bound in coverage.bounds), ContentDisposition::try_from(&[u8]), push word matching on UTF-8 text, the ring-compat rewrite in Ed25519KeyPair::from_der (Kani, <= 8 bytes); ruleset edits are decided by C13',
         'library calls below the seam: String::from_utf8_lossy, percent decoding and charset checks in RawParam::decode_value (arbitrary Option<String>), percent_encoding, server-name validation summary (C10 level A)',
         'outside the claim: serde_json / serde-derive driven deserialization (events, Raw<T>, endpoint bodies), html5ever (HTML), http_auth challenge parser (XMatrix), url::Url; nesting depth, stack exhaustion, termination and "a rejected input has no effect on later calls" (the decided functions are pure: they take the input by reference and own no state)',
     ]
